@@ -466,6 +466,10 @@ type c21Sweep struct {
 	Shift  int  `json:"shift"`  // 1-7
 	Down   bool `json:"down"`
 	Pre    int  `json:"pre"`
+	// Restart > 0 (upward sweeps that overflow): once the overflow has switched the channel off, that many further
+	// sweep periods pass, the sweep is disabled (NR10 = 00) and the channel is started again through NR14 alone with
+	// high bits 3: the frequency is then 0x300 plus the low byte of the last frequency the sweep wrote back.
+	Restart int `json:"restart,omitempty"`
 }
 
 func c21RunSweep(c c21Sweep) (sig string, err error) {
@@ -544,6 +548,43 @@ func c21RunSweep(c c21Sweep) (sig string, err error) {
 			}
 			return sig, fmt.Errorf("channel 1 started at f=%d with NR10=%02x: the duty step interval beginning %d cycles after the trigger is %d clocks; the sweep has by then produced f=%v, so 4x(2048-f) is one of %v",
 				c.F0, nr10, at[i], iv, fs[c21Max(0, q-1):c21Min(len(fs), q+2)], want)
+		}
+	}
+	if c.Restart > 0 && !c.Down && len(fs) < 8 {
+		if c.Restart > 6 {
+			return "bad-case", fmt.Errorf("restart after at most 6 sweep periods")
+		}
+		for t := int64(0); t < int64(len(fs)+2)*pS && hw.Mp.Read(0xff26)&1 != 0; t++ {
+			hw.HW()
+		}
+		if hw.Mp.Read(0xff26)&1 != 0 {
+			return "", nil // no switch-off: C19's subject
+		}
+		for t := int64(0); t < int64(c.Restart)*pS; t++ {
+			hw.HW()
+		}
+		hw.Mp.Write(0xff10, 0x00)
+		hw.Mp.Write(0xff14, 0x83)
+		f2 := 0x300 | fs[len(fs)-1]&0xff
+		P := int64(4 * (2048 - f2))
+		last = hw.A.VerifDuty(1)
+		at = at[:0]
+		for t := int64(1); t <= 8*P/4+16 && len(at) < 6; t++ {
+			hw.HW()
+			if d := hw.A.VerifDuty(1); d != last {
+				last = d
+				at = append(at, t)
+			}
+		}
+		if len(at) < 3 {
+			return "square-restart-after-sweep-overflow", fmt.Errorf("channel 1 (f=%d, NR10=%02x) swept into overflow with the frequency registers holding %d; restarted %d sweep period(s) later through NR14=83 alone it made %d duty steps in %d cycles (f = %#x, one step every %d clocks expected)",
+				c.F0, nr10, fs[len(fs)-1], c.Restart, len(at), 8*P/4+16, f2, P)
+		}
+		for i := 0; i+1 < len(at); i++ {
+			if iv := 4 * (at[i+1] - at[i]); iv != P {
+				return "square-restart-after-sweep-overflow", fmt.Errorf("channel 1 (f=%d, NR10=%02x) swept into overflow with the frequency registers holding %d; restarted %d sweep period(s) later through NR14=83 alone (so f = %#x) its duty steps are %d clocks apart, want 4x(2048-f) = %d",
+					c.F0, nr10, fs[len(fs)-1], c.Restart, f2, iv, P)
+			}
 		}
 	}
 	return "", nil
@@ -766,6 +807,9 @@ func TestC21(t *testing.T) {
 							continue
 						}
 						cas := c21Sweep{F0: f0 + idx%7, Period: p, Shift: sh, Down: down, Pre: (idx * 977) % 5000}
+						if !down && sh <= 3 {
+							cas.Restart = 1 + idx%3 // upward sweeps with these shifts overflow within a few steps
+						}
 						sig, err := c21RunSweep(cas)
 						n++
 						if idx%23 == 0 {
@@ -781,7 +825,7 @@ func TestC21(t *testing.T) {
 			}
 		}
 		c.Bulk("enum:sweep-retune", n, n)
-		c.Exhaustive("channel 1 with its frequency sweep running: 6 start frequencies x sweep periods 1-3 x shifts {1,2,3,5,7} x both directions, every duty step interval over up to 5 sweep periods")
+		c.Exhaustive("channel 1 with its frequency sweep running: 6 start frequencies x sweep periods 1-3 x shifts {1,2,3,5,7} x both directions, every duty step interval over up to 5 sweep periods; after an upward sweep has overflowed, 1-3 further sweep periods pass and the channel is restarted through NR14 alone: its period must follow the low byte the sweep last wrote back")
 	})
 
 	c.Rapid("context", 1600, 40000, func(rt *rapid.T) {
